@@ -210,7 +210,7 @@ static void vf_init(void)
     Kbound = all_on ? 16.0 : 64.0;
     sw_init();
     pts_per_case = 2000;
-    if (vf.tier) { chunks = main_cfg || all_on ? 50 : 8; }
+    if (vf.tier) { chunks = main_cfg || all_on ? 120 : 16; }
     else { chunks = 6; }
     if (getenv("VF_C10_CHUNKS")) { chunks = strtoull(getenv("VF_C10_CHUNKS"), NULL, 0); }
 }
